@@ -9,6 +9,7 @@ import (
 	"os/exec"
 	"path/filepath"
 	"regexp"
+	"sort"
 	"strconv"
 	"strings"
 	"sync"
@@ -100,14 +101,27 @@ func parseTrace(log, projDir, vlog string) ([]c10Event, error) {
 	}
 	sc := bufio.NewScanner(strings.NewReader(log))
 	sc.Buffer(make([]byte, 1<<20), 1<<26)
+	pending := map[string]string{} // pid -> first half of a call split by strace ("<unfinished ...>")
 	for sc.Scan() {
 		line := sc.Text()
-		if strings.Contains(line, "<unfinished") || strings.Contains(line, "resumed>") {
-			// only long-blocking calls are split; none of the calls we care about should be
-			if strings.Contains(line, "write(") || strings.Contains(line, "openat(") || strings.Contains(line, "rename") || strings.Contains(line, "unlink") {
-				return nil, fmt.Errorf("split syscall line in trace: %.120s", line)
+		if i := strings.Index(line, " <unfinished ...>"); i >= 0 {
+			if f := strings.Fields(line); len(f) > 0 {
+				pending[f[0]] = line[:i]
 			}
 			continue
+		}
+		if i := strings.Index(line, " resumed>"); i >= 0 && strings.Contains(line, "<... ") {
+			f := strings.Fields(line)
+			if len(f) == 0 {
+				continue
+			}
+			first, ok := pending[f[0]]
+			if !ok {
+				continue
+			}
+			delete(pending, f[0])
+			// the call takes effect when it completes: treat the joined line as occurring here
+			line = first + line[i+len(" resumed>"):]
 		}
 		m := straceLine.FindStringSubmatch(line)
 		if m == nil {
@@ -303,7 +317,7 @@ func c10Explore(sb *proj.Sandbox, p hprog, tier string) c10Result {
 	cleanOps := func(d hdisk) []hop {
 		var ops []hop
 		for _, o := range histOps(p, d, false) {
-			if o.Kind == "run" && len(o.Fail) > 0 {
+			if o.Kind == "run" && (len(o.Fail) > 0 || o.Fault != "") {
 				continue
 			}
 			if o.Kind == "rmcache" {
@@ -322,6 +336,15 @@ func c10Explore(sb *proj.Sandbox, p hprog, tier string) c10Result {
 		r := execRun(sb, p, text, d, op)
 		memo[k] = r
 		return r
+	}
+	normalFailure = func(d hdisk, op hop) bool {
+		nd := hdisk{Files: d.Files}
+		for _, ex := range run(nd, op) {
+			if !ex.Out.Failed() {
+				return false
+			}
+		}
+		return true
 	}
 	for cur := 0; cur < len(states) && len(states) < 3000; cur++ {
 		st := states[cur]
@@ -437,6 +460,11 @@ func c10Explore(sb *proj.Sandbox, p hprog, tier string) c10Result {
 						if st.D.HasCache {
 							spok.Files["cache.json"] = st.D.Cache
 						}
+						for _, e := range st.D.Extra {
+							if i := strings.IndexByte(e, '='); i > 0 {
+								spok.Files[e[:i]] = e[i+1:]
+							}
+						}
 					}
 					markers := ""
 					for i := 0; i < pt.k; i++ {
@@ -449,6 +477,14 @@ func c10Explore(sb *proj.Sandbox, p hprog, tier string) c10Result {
 					cd := hdisk{Files: append([]string{}, st.D.Files...), SpokDir: spok.Dir}
 					if c, ok := spok.Files["cache.json"]; ok && spok.Dir {
 						cd.HasCache, cd.Cache = true, c
+					}
+					if spok.Dir {
+						for n, c := range spok.Files {
+							if n != "cache.json" && n != ".gitignore" && n != "CACHEDIR.TAG" {
+								cd.Extra = append(cd.Extra, n+"="+c)
+							}
+						}
+						sort.Strings(cd.Extra)
 					}
 					// crash model: tasks whose commands all completed inside the prefix
 					var log []string
@@ -495,44 +531,60 @@ func c10Explore(sb *proj.Sandbox, p hprog, tier string) c10Result {
 					}
 					seenCrash[ck] = true
 					res.CrashStates++
-					// 3. continuations: (no edit | each edit) ; each unforced run
-					bases := []hdisk{cd}
-					var edits []hop
-					edits = append(edits, hop{Kind: "none"})
-					for _, e := range histOps(p, cd, false) {
-						if e.Kind == "edit" {
-							bases = append(bases, applyEdit(cd, e))
-							edits = append(edits, e)
-						}
+					// 3. continuations: up to two further invocations, each optionally preceded by one
+					// edit; unforced and forced runs. States are deduplicated over the whole program.
+					crashDesc := fmt.Sprintf("program %s, history [%s], then `%s` killed after %d of %d mutating syscalls", p.Name, traceString(states, si), op.String(), pt.k, len(evs))
+					if pt.torn >= 0 {
+						crashDesc += fmt.Sprintf(" with the cache write torn at byte %d", pt.torn)
 					}
-					for bi, bd := range bases {
-						for _, rop := range cleanOps(bd) {
-							if rop.Kind != "run" {
-								continue
+					crashDesc += fmt.Sprintf(" (cache file = %q, other .spok files %q)", cd.Cache, cd.Extra)
+					type node struct {
+						d     hdisk
+						m     hmodel
+						depth int
+						path  string
+						steps []map[string]any
+					}
+					queue := []node{{d: cd, m: cm}}
+					for qi := 0; qi < len(queue); qi++ {
+						n := queue[qi]
+						bases := []hdisk{n.d}
+						edits := []hop{{Kind: "none"}}
+						for _, e := range histOps(p, n.d, false) {
+							if e.Kind == "edit" {
+								bases = append(bases, applyEdit(n.d, e))
+								edits = append(edits, e)
 							}
-							for _, ex := range run(bd, rop) {
-								res.Continuation++
-								cls, what := c10Oracle(p, bd, cm, rop, ex)
-								key := "ok-normal"
-								if ex.Out.Failed() {
-									key = "ok-explicit-cache-error"
-								}
-								if cls != "" {
-									key = "violation:" + cls
-									if len(res.Viol) < 25 {
-										tr := tracePath(states, si)
-										desc := fmt.Sprintf("program %s, history [%s], then `%s` killed after %d of %d mutating syscalls", p.Name, traceString(states, si), op.String(), pt.k, len(evs))
-										if pt.torn >= 0 {
-											desc += fmt.Sprintf(" with the cache write torn at byte %d (cache file = %q)", pt.torn, cd.Cache)
-										} else {
-											desc += fmt.Sprintf(" (cache file = %q)", cd.Cache)
+						}
+						for bi, bd := range bases {
+							for _, rop := range contOps(p, bd) {
+								for _, ex := range run(bd, rop) {
+									res.Continuation++
+									cls, what := c10Oracle(p, bd, n.m, rop, ex)
+									key := "ok-normal"
+									if ex.Out.Failed() {
+										key = "ok-explicit-error"
+									}
+									path := n.path + " ; " + edits[bi].String() + " ; " + rop.String()
+									steps := append(append([]map[string]any{}, n.steps...), map[string]any{"edit": edits[bi], "run": rop, "choice": ex.Choice})
+									if cls != "" {
+										key = "violation:" + cls
+										if len(res.Viol) < 25 {
+											res.Viol = append(res.Viol, ev.Violation{Engine: "crashmc", Key: fmt.Sprintf("%s: %s ; CRASH(%s)@%d/%d%s", p.Name, traceString(states, si), op.String(), pt.k, pt.torn, path),
+												Class: cls, What: crashDesc + ", then" + path + ": " + what,
+												Case: map[string]any{"program": p, "crash_disk": cd, "crash_model": cm, "steps": steps}})
 										}
-										desc += fmt.Sprintf(", then %s ; %s: %s", edits[bi].String(), rop.String(), what)
-										res.Viol = append(res.Viol, ev.Violation{Engine: "crashmc", Key: fmt.Sprintf("%s: %s ; CRASH(%s)@%d/%d ; %s ; %s", p.Name, traceString(states, si), op.String(), pt.k, pt.torn, edits[bi].String(), rop.String()),
-											Class: cls, What: desc, Case: map[string]any{"program": p, "trace": tr, "crash_op": op, "events": evs, "k": pt.k, "torn": pt.torn, "edit": edits[bi], "run": rop, "choice": ex.Choice, "crash_disk": cd, "crash_model": cm}})
+									}
+									res.Outcomes[key]++
+									if n.depth+1 < c10Depth {
+										nm, _ := evalRun(p, bd, n.m, rop, ex)
+										k := ex.Disk.key() + "\x03" + nm.key()
+										if !seenCrash[k] {
+											seenCrash[k] = true
+											queue = append(queue, node{d: ex.Disk, m: nm, depth: n.depth + 1, path: path, steps: steps})
+										}
 									}
 								}
-								res.Outcomes[key]++
 							}
 						}
 					}
@@ -548,6 +600,27 @@ func c10Explore(sb *proj.Sandbox, p hprog, tier string) c10Result {
 
 var c10TraceMemo = map[string][][]c10Event{}
 
+// number of invocations explored after a crash
+const c10Depth = 2
+
+// contOps: the runs tried after a crash - every unforced request list, and forced runs of single tasks and of everything
+func contOps(p hprog, d hdisk) []hop {
+	var ops []hop
+	for _, o := range histOps(p, d, true) {
+		if o.Kind != "run" || len(o.Fail) > 0 || o.Fault != "" {
+			continue
+		}
+		if o.Force && len(o.Req) > 1 && len(o.Req) < len(p.Tasks) {
+			continue
+		}
+		ops = append(ops, o)
+	}
+	return ops
+}
+
+// normalFailure reports whether op fails on d's files when there is no cache at all (set per program by c10Explore).
+var normalFailure func(d hdisk, op hop) bool
+
 // c10Oracle: a run from a crash state either stops with an explicit error about the
 // cache and skips nothing, or is skip-sound against the crash-updated model.
 func c10Oracle(p hprog, d hdisk, m hmodel, op hop, ex hexec) (string, string) {
@@ -557,13 +630,18 @@ func c10Oracle(p hprog, d hdisk, m hmodel, op hop, ex hexec) (string, string) {
 	}
 	if out.Failed() {
 		if !strings.Contains(strings.ToLower(out.ErrText()), "cache") {
-			return "unexplained-error-after-crash", fmt.Sprintf("run fails without naming the cache: %s", firstLine(out.ErrText()))
+			// an error that has nothing to do with the crash (e.g. a dependency file is missing)
+			// is "behaving as after a normal run": it must also occur without any cache
+			if normalFailure != nil && normalFailure(d, op) {
+				return "", ""
+			}
+			return "unexplained-error-after-crash", fmt.Sprintf("run fails without naming the cache, and does not fail on the same files without a cache: %s", firstLine(out.ErrText()))
 		}
 		return "", ""
 	}
 	_, vs := evalRun(p, d, m, op, ex)
 	for _, v := range vs {
-		if v.Prop == "C01" {
+		if v.Prop == "C01" || (op.Force && v.Prop == "C14") {
 			return v.Class, v.What
 		}
 	}
@@ -583,12 +661,12 @@ func c10Worker(args []string) {
 func c10Programs(tier string) []hprog {
 	all := histCatalogue()
 	if tier == "thorough" {
-		return all
+		// every byte of every cache write, on the whole catalogue plus the one-task programs of the small-scope family
+		return append(all, histAllSmall()[:15]...)
 	}
 	var out []hprog
 	for _, p := range all {
-		switch p.Name {
-		case "P3-two-independent", "P6-chain", "P1-one-literal", "P5-file-and-fileless", "P12-later-task-bumps-input", "P4-shared-file":
+		if p.Name != "P7-glob-literal-overlap" && p.Name != "P8-three-tasks" { // the two largest graphs: thorough tier only
 			out = append(out, p)
 		}
 	}
@@ -673,37 +751,54 @@ func c10Replay(path string) int {
 	json.Unmarshal(data, &v)
 	var p hprog
 	json.Unmarshal(pool.MustJSON(v.Case["program"]), &p)
-	var cd hdisk
-	var cm hmodel
-	var edit, rop hop
-	var choice []int
-	json.Unmarshal(pool.MustJSON(v.Case["crash_disk"]), &cd)
-	json.Unmarshal(pool.MustJSON(v.Case["crash_model"]), &cm)
-	json.Unmarshal(pool.MustJSON(v.Case["edit"]), &edit)
-	json.Unmarshal(pool.MustJSON(v.Case["run"]), &rop)
-	json.Unmarshal(pool.MustJSON(v.Case["choice"]), &choice)
+	var d hdisk
+	var m hmodel
+	var steps []struct {
+		Edit   hop   `json:"edit"`
+		Run    hop   `json:"run"`
+		Choice []int `json:"choice"`
+	}
+	json.Unmarshal(pool.MustJSON(v.Case["crash_disk"]), &d)
+	json.Unmarshal(pool.MustJSON(v.Case["crash_model"]), &m)
+	json.Unmarshal(pool.MustJSON(v.Case["steps"]), &steps)
 	sb := proj.NewSandbox(filepath.Join(pool.Scratch, "replay"))
-	fmt.Printf("replaying C10 on program %s\n%s\ncrash state: files=%v cache=%q\nthen %s ; %s\n", p.Name, p.text(), cd.Files, cd.Cache, edit.String(), rop.String())
-	d := cd
-	if edit.Kind == "edit" {
-		d = applyEdit(cd, edit)
+	fmt.Printf("replaying C10 on program %s\n%s\ncrash state: files=%v cache=%q extra=%q\n", p.Name, p.text(), d.Files, d.Cache, d.Extra)
+	normalFailure = func(d hdisk, op hop) bool {
+		for _, ex := range execRun(sb, p, p.text(), hdisk{Files: d.Files}, op) {
+			if !ex.Out.Failed() {
+				return false
+			}
+		}
+		return true
 	}
-	c := choose.NewReplay(choice)
-	setDagOrder(func(n int) []int { return c.Perm(n) })
-	materialise(sb, p, d)
-	sb.SetFailing(nil, p.taskNames())
-	out := sb.Run(p.text(), false, rop.Req...)
-	setDagOrder(nil)
-	ex := hexec{Disk: readDisk(sb, p, d), Out: out, Choice: c.Taken}
-	for _, r := range out.Results {
-		fmt.Printf("    task %s skipped=%v\n", r.Name, r.Skipped)
+	bad := ""
+	for i, st := range steps {
+		fmt.Printf("step %d: %s ; %s\n", i+1, st.Edit.String(), st.Run.String())
+		if st.Edit.Kind == "edit" {
+			d = applyEdit(d, st.Edit)
+		}
+		c := choose.NewReplay(st.Choice)
+		setDagOrder(func(n int) []int { return c.Perm(n) })
+		materialise(sb, p, d)
+		sb.SetFailing(nil, p.taskNames())
+		out := sb.Run(p.text(), st.Run.Force, st.Run.Req...)
+		setDagOrder(nil)
+		ex := hexec{Disk: readDisk(sb, p, d), Out: out, Choice: c.Taken}
+		for _, r := range out.Results {
+			fmt.Printf("    task %s skipped=%v\n", r.Name, r.Skipped)
+		}
+		if out.Failed() {
+			fmt.Printf("    error: %s\n", firstLine(out.ErrText()))
+		}
+		cls, what := c10Oracle(p, d, m, st.Run, ex)
+		if cls != "" {
+			bad = cls + ": " + what
+		}
+		m, _ = evalRun(p, d, m, st.Run, ex)
+		d = ex.Disk
 	}
-	if out.Failed() {
-		fmt.Printf("    error: %s\n", firstLine(out.ErrText()))
-	}
-	cls, what := c10Oracle(p, d, cm, rop, ex)
-	if cls != "" {
-		fmt.Printf("  %s: %s\nVIOLATION property=C10 replay=%s\n", cls, what, path)
+	if bad != "" {
+		fmt.Printf("  %s\nVIOLATION property=C10 replay=%s\n", bad, path)
 		return 1
 	}
 	fmt.Println("no violation on replay")
